@@ -603,6 +603,20 @@ func ruleDropKeep(r *Run) {
 		}
 		preds[s.typ] = staticCallee(pc)
 		bad := false
+		// labels are deleted only by the verdict of the selection predicate: no other Delete in
+		// the stage (a shortcut that deletes by name alone ignores the value matchers)
+		for _, g := range funcGroup(fn) {
+			for _, c := range callsIn(g) {
+				if !callIs(c, eng, "(*LabelSet).Delete") || c == del {
+					continue
+				}
+				if g == staticCallee(pc) {
+					continue
+				}
+				bad = true
+				o.Fail(r.pos(c.Pos()), "a label is deleted outside the verdict of the selection predicate")
+			}
+		}
 		if b, known := knownBoolAt(del.Block(), pc); !known || b != s.delOn {
 			bad = true
 			o.Fail(r.pos(del.Pos()), "the label is deleted when the selection predicate is %v (known=%v), expected %v", b, known, s.delOn)
